@@ -1,6 +1,7 @@
 (* C06 -- after a successful edit the tree is a fixpoint and every insertion round-trips.
    Statements only; proofs in Proofs/RunFacts.v, CheckFacts.v, RegexFacts.v, RoundTrip.v. *)
 From Coq Require Import List NArith Bool Lia.
+From Breadlog Require Import Proofs.RuleLemmas Proofs.StatementLemmas Proofs.ArgLemmas Proofs.FileSpec Proofs.CanonicalRun Proofs.RegexFacts.
 From Breadlog Require Import Model.Peg Model.Text Model.Regex Model.Glue Model.Tables Model.Utf8 Model.Driver.
 From Breadlog Require Import Gen.Consts.
 From Breadlog Require Import Proofs.RewriteFacts Proofs.DriverFacts Proofs.RunFacts Proofs.CheckFacts
@@ -82,7 +83,30 @@ Example C06_nonvacuous :
   w_lock (after rc (w_src w1) (w_lock w1) o) = w_lock w1 /\ w_lock w1 = LValid 3.
 Proof. intros f o [|]; vm_compute; repeat split; try reflexivity; discriminate. Qed.
 
+(* (3) ROUND TRIP AT A STATEMENT OF THE CANONICAL FILE LANGUAGE (Proofs/FileSpec.v), from the text: a statement
+   whose message begins with the token for id -- wherever it stands in whatever file, with any layout -- is read
+   back, when it is reported at all, with exactly that id ... *)
+Theorem C06_statement_token_roundtrip : forall cfg code pre n l us id,
+  id <= 4294967295 ->
+  forall e, In e (step_entries (stmt_step cfg code pre n l (map MChar (default_token id) ++ us))) ->
+            e_kind e = KString -> e_ref e = Some id.
+Proof. exact stmt_token_roundtrip. Qed.
+
+(* ... and a statement whose first key-value is the `ref = id` an edit run inserts (followed by "," when other
+   key-values exist, by ";" when not), with any target before it, any key-values and any message after it *)
+Theorem C06_statement_ref_roundtrip : forall cfg code pre n a id comma more lsemi lafter,
+  id <= 4294967295 -> a_kvs a = Some (ref_core id comma, more, lsemi, lafter) ->
+  forall e, In e (step_entries (stmt_stepA cfg code pre n a)) ->
+            e_kind e <> KString -> e_kind e = KStructuredPreExisting /\ e_ref e = Some id.
+Proof. exact stmtA_ref_roundtrip. Qed.
+
+(* NOT proved: that the bytes an edit run writes ARE the rendering of such a statement list (it needs the
+   UTF-8 encode / decode round trip and the chunk arithmetic of C03 at the level of items), and that the
+   directive decision of every statement is unchanged by the inserted tokens. *)
+
 Print Assumptions C06_complete_tree_is_fixpoint.
+Print Assumptions C06_statement_token_roundtrip.
+Print Assumptions C06_statement_ref_roundtrip.
 Print Assumptions C06_check_passes_on_complete_tree.
 Print Assumptions C06_message_token_roundtrip.
 Print Assumptions C06_structured_value_roundtrip.
